@@ -431,7 +431,18 @@ def run_comp(case):
     return obs
 
 
+def run_accepts(case):
+    """direct call of the public Info.accepts in the given direction"""
+    try:
+        r = mk_info(case["self"]).accepts(mk_info(case["inc"]), {}, incoming_donwstream=case["down"])
+        return {"outcome": "True" if r else "False", "exchanged": 0, "gate": False}
+    except Exception as e:  # noqa
+        return {"outcome": err_class(e), "exchanged": 0, "gate": False}
+
+
 def run_impl(case):
+    if case["mode"] == "accepts":
+        return run_accepts(case)
     return run_comp(case) if case["mode"] == "comp" else run_bare(case)
 
 
@@ -525,16 +536,18 @@ def _exchange_order(case, obs):
 
 
 def coq_case(case, obs):
+    if case["mode"] == "accepts":
+        return C("CAccepts", coq_info_spec(case["self"]), coq_info_spec(case["inc"]), B(case["down"]))
     cons = []
     for i in _exchange_order(case, obs):
         c = case["consumers"][i]
         chain = L(coq_adapter(a) for a in reversed(c["chain"]))  # model: from the input towards the output
         cons.append(C("mkC", chain, coq_info_spec(c["info"])))
     oi = NONE if case["out"] is None else Some(coq_info_spec(case["out"]))
-    return P(P(oi, B(case["static"])), L(cons))
+    return C("CExchange", oi, B(case["static"]), L(cons))
 
 
-OUTCOME = {"ok": 0, "MetaDataError": 1, "NoDataError": 2}
+OUTCOME = {"ok": 0, "MetaDataError": 1, "NoDataError": 2, "True": 10, "False": 11}
 
 
 def coq_obs(case, obs):
@@ -598,6 +611,10 @@ def _plain(chain):
 
 
 def monitor(case, obs):
+    if case["mode"] == "accepts":
+        if obs["outcome"] not in ("True", "False"):
+            return f"Info.accepts raised {obs['outcome']}"
+        return None
     if case.get("early") and obs.get("early") != "NoDataError":
         return f"exchange before the producer pushed its info gave {obs.get('early')} instead of FinamNoDataError"
     oc = obs["outcome"]
@@ -693,6 +710,8 @@ def monitor(case, obs):
 
 
 def nontrivial(case, obs):
+    if case["mode"] == "accepts":
+        return False
     if obs["outcome"] != "ok":
         return case["out"] is not None
     o = case["out"]
@@ -841,7 +860,15 @@ def _gen_chain(rng, regrid_ok, out, cinfo):
             chain.append(["sum", rng.random() < 0.7])
         elif k == "regrid":
             ig = None if rng.random() < 0.6 else rng.choice(REAL_GRIDS)
-            og = None if rng.random() < 0.5 else (cinfo["grid"] if cinfo["grid"] is not None and rng.random() < 0.7 else rng.choice(REAL_GRIDS))
+            og = None
+            if rng.random() < 0.5:
+                r2 = rng.random()
+                if cinfo["grid"] is not None and r2 < 0.55:
+                    og = cinfo["grid"]
+                elif cinfo["grid"] is not None and r2 < 0.8:
+                    og = rng.choice(SAME_GEOM.get(cinfo["grid"], [cinfo["grid"]]))  # compatible, maybe another layout
+                else:
+                    og = rng.choice(REAL_GRIDS)
             om = None
             if rng.random() < 0.35:
                 tgt = og or cinfo["grid"]
@@ -1000,11 +1027,20 @@ def generate(rng, tier):
                     cases.append(_case(o, [(c, [["scale"]] if k % 2 else [])]))
     for i in range(n):
         cases.append(_gen_case(rng, i))
+    # the public Info.accepts in both directions on random pairs (incl. pairs no exchange can reach)
+    for i in range(n // 3):
+        a = _gen_info(rng, ALL_GRIDS)
+        a["mask"] = _gen_mask(rng, a["grid"], p_unset=0.1)
+        b = _gen_info(rng, ALL_GRIDS, ref=a, conflict=0.3)
+        cases.append({"mode": "accepts", "self": a, "inc": b, "down": rng.random() < 0.5})
     return cases
 
 
 def distribution(cases, obss):
+    acc = [c for c in cases if c["mode"] == "accepts"]
+    cases, obss = zip(*[(c, o) for c, o in zip(cases, obss) if c["mode"] != "accepts"])
     d = {
+        "direct_accepts_calls": len(acc),
         "mode": dict(Counter(c["mode"] for c in cases)),
         "fanout": dict(Counter(len(c["consumers"]) for c in cases)),
         "outcome": dict(Counter(o.get("outcome", "harness_error") for o in obss)),
@@ -1021,6 +1057,8 @@ def distribution(cases, obss):
 
 
 def shrink_candidates(case):
+    if case["mode"] == "accepts":
+        return
     cs = case["consumers"]
     if len(cs) > 1:
         for i in range(len(cs)):
